@@ -326,7 +326,11 @@ func (n *nodeSim) checkSettled(where string) {
 				since = tr.epochAcc
 			}
 			if !n.invokedSince(tr, dp, since) {
-				n.res.Violate("C05", "I2-direct", "not-offered-to-connected-destination/"+n.algo, "%s: destination p%d is connected (since epoch %d, bundle accepted epoch %d) but no Send was invoked since (%s)",
+				sig := "not-offered-to-connected-destination/" + n.algo
+				if n.peers[dp].appearedUnlisted >= n.peers[dp].upEpoch {
+					sig = "not-offered-to-connected-destination/peer-appeared-before-registration"
+				}
+				n.res.Violate("C05", "I2-direct", sig, "%s: destination p%d is connected (since epoch %d, bundle accepted epoch %d) but no Send was invoked since (%s)",
 					tr.spec.Tag, dp, n.peers[dp].upEpoch, tr.epochAcc, where)
 			}
 		}
@@ -346,6 +350,9 @@ func (n *nodeSim) checkSettled(where string) {
 					since := ps.upEpoch
 					if !n.invokedSince(tr, ps.idx, since) {
 						sig := "not-offered-to-new-peer/" + n.algo
+						if ps.appearedUnlisted >= ps.upEpoch {
+							sig = "not-offered-to-new-peer/peer-appeared-before-registration"
+						}
 						if tr.overlapRMW {
 							sig += "/overlapping-failure-reports"
 						}
